@@ -62,6 +62,10 @@ class Pipe:
         assert total >= 0, 'total must be positive'
         assert throughput is None or throughput > 0,\
             'throughput must be positive or None'
+        if total == 0:
+            # nothing to transfer, but allow other tasks to run like every transfer
+            await postpone()
+            return
         transferred = 0
         identifier = object()
         throughput = throughput if throughput is not None else self.throughput
